@@ -21,7 +21,8 @@ import (
 // full case prepends the oracle rows ((q-string rank) ...): rank = order of strconv.ParseFloat's values, -1 = parse error
 // observation = (panicked statuses content-types decodes)   over 6 repetitions of the same request (map iteration order varies)
 
-var negTypes = []string{"application/json", "application/xml", "application/vnd.x+json", "text/csv"}
+// the last two names CONTAIN a registered built-in name (an exact registration must win over containment)
+var negTypes = []string{"application/json", "application/xml", "application/vnd.x+json", "text/csv", "application/json-seq", "application/xml-dtd"}
 var negQ = []string{"1", "0.9", "0.5", "0.1", "0", "0.90", "1.0", ".5", "0.75", "1.000"}
 var negBadQ = []string{"", "x", "0.5x", "0,5", "1e", "--1"}
 
